@@ -263,7 +263,7 @@ def handleFull (cfgS inpS alnumS : String) : String :=
       -- the premise of `C03.C03_format_full_checked`: the output is another layout of the input's tokens (tally only)
       let c03 := layoutStatus cfg (fun b => alnum.contains b) inp out
       -- the premise of `C08.C08_format_full_checked` (tally only)
-      let c08 := if canonPremisesB cfg (fun b => alnum.contains b) inp then "hold" else "no"
+      let c08 := if canonPremisesB' cfg (fun b => alnum.contains b) inp then "hold" else "no"
       -- the hypothesis `CanonState` of the byte-level clauses of C08 on the final token state (tally only)
       let c08b := match finalStateFull cfg (fun b => alnum.contains b) inp with
         | some ftz => if canonStateB cfg.settings ftz then "hold" else "no"
